@@ -99,6 +99,64 @@ def _reduce_axes(v, axes, keepdim: bool, op: str):
     return build([], 0)
 
 
+def _flat(z) -> list:
+    return [y for t in z for y in _flat(t)] if isinstance(z, list) else [z]
+
+
+def _build(flat: list, shape: List[int]):
+    if not shape:
+        return flat[0]
+    if len(shape) == 1:
+        return list(flat[: shape[0]])
+    step = 1
+    for d in shape[1:]:
+        step *= d
+    return [_build(flat[i * step : (i + 1) * step], shape[1:]) for i in range(shape[0])]
+
+
+def _reshape(v, dims: List[int]):
+    flat = _flat(v)
+    dims = list(dims)
+    if dims.count(-1) > 1 or not all(isinstance(d, int) and not isinstance(d, bool) for d in dims):
+        raise Unfoldable("reshape arguments")
+    known = 1
+    for d in dims:
+        if d != -1:
+            known *= d
+    if -1 in dims:
+        if known == 0 or len(flat) % known:
+            raise Unfoldable("reshape does not divide")
+        dims[dims.index(-1)] = len(flat) // known
+    elif known != len(flat):
+        raise Unfoldable("reshape changes the number of elements")
+    return _build(flat, dims)
+
+
+def _cat(parts: list, dim: int):
+    if dim == 0:
+        return [x for p_ in parts for x in p_]
+    n = {len(p_) for p_ in parts}
+    if len(n) != 1:
+        raise Unfoldable("cat: leading sizes differ")
+    return [_cat([p_[i] for p_ in parts], dim - 1) for i in range(n.pop())]
+
+
+def _stack(parts: list, dim: int):
+    shp = _shape(parts[0])
+    if any(_shape(p_) != shp for p_ in parts):
+        raise Unfoldable("stack: shapes differ")
+    rank = len(shp)
+    dim = dim % (rank + 1)
+
+    def un(z, level):
+        # insert a length-1 axis at position `dim`
+        if level == dim:
+            return [z]
+        return [un(t, level + 1) for t in z]
+
+    return _cat([un(p_, 0) for p_ in parts], dim)
+
+
 def _ew(f, a, b=None):
     """elementwise application with scalar broadcasting"""
     if b is None:
@@ -149,7 +207,16 @@ class Folder:
                 return node.value
             raise Unfoldable(f"constant {node.value!r}")
         if isinstance(node, (ast.List, ast.Tuple)):
-            return PySeq(self.fold(e) for e in node.elts)
+            out = PySeq()
+            for e in node.elts:
+                if isinstance(e, ast.Starred):
+                    t = self.fold(e.value)
+                    if not isinstance(t, list):
+                        raise Unfoldable("starred element")
+                    out.extend(t)
+                else:
+                    out.append(self.fold(e))
+            return out
         if isinstance(node, ast.JoinedStr):
             out = ""
             for part in node.values:
@@ -330,6 +397,10 @@ class Folder:
                 return _ew(f, a, b)
             except TypeError as exc:
                 raise Unfoldable(str(exc))
+        if isinstance(node, ast.Call) and isinstance(node.func, ast.Attribute) and self.funcs and attr_chain(node.func) in self.funcs:
+            # a method of the analysed class the caller allows to be followed (`self._helper(...)`)
+            fake = ast.Call(func=ast.Name(id=attr_chain(node.func), ctx=ast.Load()), args=node.args, keywords=node.keywords)
+            return self.fold(fake)
         if isinstance(node, ast.Call) and self.attrs and unparse(node) in self.attrs:
             # a call the caller has bound to a value (e.g. `self.field.primitive_element()`)
             return self.attrs[unparse(node)]
@@ -351,6 +422,21 @@ class Folder:
                 if isinstance(i, int) and not isinstance(i, bool) and -len(dims) <= i < len(dims):
                     return dims[i]
                 raise Unfoldable("size index")
+            if m in ("reshape", "view") and node.args and not (len(node.args) == 1 and isinstance(node.args[0], ast.UnaryOp) and unparse(node.args[0]) == "-1"):
+                v = self.fold(node.func.value)
+                dims: List[Any] = []
+                for a in node.args:
+                    if isinstance(a, ast.Starred):
+                        t = self.fold(a.value)
+                        if not isinstance(t, list):
+                            raise Unfoldable("starred argument")
+                        dims += list(t)
+                    else:
+                        t = self.fold(a)
+                        dims += list(t) if isinstance(t, list) else [t]
+                if isinstance(v, list):
+                    return _reshape(v, dims)
+                raise Unfoldable("reshape of a scalar")
             if m == "unsqueeze" and len(node.args) == 1:
                 v, d = self.fold(node.func.value), self.fold(node.args[0])
                 if d == 0:
@@ -406,6 +492,8 @@ class Folder:
 
             fd = self.funcs[node.func.id]
             params = [a.arg for a in fd.args.args]
+            if "." in node.func.id and params and params[0] in ("self", "cls"):
+                params = params[1:]
             if len(node.args) > len(params) or node.keywords and any(k.arg not in params for k in node.keywords):
                 raise Unfoldable(f"call {node.func.id}: arguments do not bind")
             env: Dict[str, Any] = {}
@@ -427,6 +515,15 @@ class Folder:
         if isinstance(node, ast.Call):
             nm = call_name(node) or ""
             short = nm.split(".")[-1]
+            if short == "stack" and nm.startswith("torch.") and node.args:
+                parts = self.fold(node.args[0])
+                dim = next((self.fold(k.value) for k in node.keywords if k.arg == "dim"), self.fold(node.args[1]) if len(node.args) > 1 else 0)
+                if isinstance(parts, list) and parts and isinstance(dim, int):
+                    try:
+                        return _stack([p_ if isinstance(p_, list) else p_ for p_ in parts], dim) if all(isinstance(p_, list) for p_ in parts) else list(parts)
+                    except (IndexError, TypeError) as exc:
+                        raise Unfoldable(str(exc))
+                raise Unfoldable("stack")
             if short in ("cat", "concat", "concatenate", "hstack") and nm.startswith("torch.") and node.args:
                 parts = self.fold(node.args[0])
                 dim = next((self.fold(k.value) for k in node.keywords if k.arg == "dim"), self.fold(node.args[1]) if len(node.args) > 1 else 0)
@@ -436,14 +533,9 @@ class Folder:
                 if len(depths) > 1:
                     raise Unfoldable("cat of different ranks")
                 d_ = depths.pop() if depths else 1
-                if dim in (0, -d_):
-                    return [x for p_ in parts for x in p_]
-                if d_ == 2 and dim in (1, -1):
-                    rows = {len(p_) for p_ in parts}
-                    if len(rows) != 1:
-                        raise Unfoldable("cat row mismatch")
-                    return [[x for p_ in parts for x in p_[r]] for r in range(rows.pop())]
-                raise Unfoldable("cat axis")
+                if not isinstance(dim, int) or not (-d_ <= dim < d_):
+                    raise Unfoldable("cat axis")
+                return _cat([p_ for p_ in parts if p_ != []] or [[]], dim % d_)
             if nm == "isinstance" and len(node.args) == 2:
                 v = self.fold(node.args[0])
                 tn = unparse(node.args[1])
